@@ -39,7 +39,7 @@ def build(v, nans):
     """JSON value -> python object; nans maps NaN id -> the one float object with that identity"""
     if v is None:
         return None
-    k, a = v
+    k, a = v[0], v[1]
     if k == 'b': return bool(a)
     if k == 'i': return int(a)
     if k == 'f': return a / 2.0
@@ -68,6 +68,11 @@ def build(v, nans):
     if k == 'pdt':
         import pandas as pd
         return pd.Timestamp(us2dt(a))
+    if k == 'adt':                                   # timezone-aware datetime: a = instant (UTC), v[2] = offset of its zone in minutes
+        tz = datetime.timezone(datetime.timedelta(minutes=v[2]))
+        return (us2dt(a) + datetime.timedelta(minutes=v[2])).replace(tzinfo=tz)
+    if k == 'npdu':                                  # np.datetime64 of resolution v[2] (Y M W D h m s ms us ns), truncated to it
+        return np.datetime64(us2dt(a)).astype('datetime64[%s]' % v[2])
     if k == 'date': return us2dt(a).date()
     raise ValueError(v)
 
@@ -77,10 +82,15 @@ def coq_str_lit(s):
 def coq_name(s):
     return '(C_ %s)' % coq_str_lit(s)
 
+def npdu_us(a, unit):
+    import numpy as np
+    return dt2us(np.datetime64(us2dt(a)).astype('datetime64[%s]' % unit).astype('datetime64[us]').item())
+
 def coq_val(v):
     if v is None:
         return 'VNone'
-    k, a = v
+    k, a = v[0], v[1]
+    if k == 'npdu': return '(VDate (%d))' % npdu_us(a, v[2])
     if k in ('b', 'npb'): return '(VBool %s)' % ('true' if a else 'false')
     if k in ('i', 'npi', 'npi32'): return '(VNum false (%d))' % (2 * a)
     if k in ('f', 'npf', 'npf32'): return '(VNum true (%d))' % a
@@ -91,7 +101,7 @@ def coq_val(v):
         if all(32 <= ord(c) < 127 for c in a):
             return '(S_ %s)' % coq_str_lit(a)
         return '(VStr [%s])' % '; '.join('%d%%N' % ord(c) for c in a)
-    if k in ('d', 'npd', 'date', 'pdt'): return '(VDate (%d))' % a
+    if k in ('d', 'npd', 'date', 'pdt', 'adt'): return '(VDate (%d))' % a          # an aware datetime is its instant
     if k == 't': return '(VTuple [%s])' % '; '.join(coq_val(x) for x in a)
     if k == 'l': return '(VList [%s])' % '; '.join(coq_val(x) for x in a)
     if k == 'm': return '(VDict [%s])' % '; '.join('(%s, %s)' % (coq_val(['s', kk] if isinstance(kk, str) else kk), coq_val(x)) for kk, x in a)
@@ -120,6 +130,8 @@ def canon(x, nans):
         return ['s', str(x)]
     if tn == 'datetime64':
         x = x.astype('datetime64[us]').item()
+    if isinstance(x, datetime.datetime) and x.tzinfo is not None:
+        x = x.astimezone(datetime.timezone.utc).replace(tzinfo=None)          # aware: the instant
     if isinstance(x, datetime.datetime):            # pd.Timestamp is a datetime
         return ['d', dt2us(datetime.datetime(x.year, x.month, x.day, x.hour, x.minute, x.second, x.microsecond))]
     if isinstance(x, datetime.date):
@@ -136,7 +148,7 @@ def vrank_type(v):
     """type rank of a JSON value (for non-triviality only)"""
     if v is None: return 0
     k = v[0]
-    return {'b': 1, 'npb': 1, 'd': 2, 'npd': 2, 'date': 2, 'pdt': 2, 'm': 3, 'i': 4, 'f': 4, 'nan': 4, 'inf': 4, 'npi': 4, 'npf': 4, 'npi32': 4, 'npf32': 4, 'npnan': 4, 'l': 5, 's': 6, 't': 7}[k]
+    return {'b': 1, 'npb': 1, 'd': 2, 'npd': 2, 'date': 2, 'pdt': 2, 'adt': 2, 'npdu': 2, 'm': 3, 'i': 4, 'f': 4, 'nan': 4, 'inf': 4, 'npi': 4, 'npf': 4, 'npi32': 4, 'npf32': 4, 'npnan': 4, 'l': 5, 's': 6, 't': 7}[k]
 
 D0 = 737425 * DAYUS     # 2020-01-01
 FUT = 821700 * DAYUS + 86399999999      # the last microsecond of a day in 2250
@@ -159,6 +171,9 @@ UNIVERSE = [
     # dict keys of other and of mixed types (items are sorted by Cmp of their keys)
     ['m', [[['i', 1], ['i', 1]], ['a', ['i', 2]]]], ['m', [[['i', 1], ['i', 1]], ['a', ['i', 3]]]], ['m', [['a', ['i', 2]], [['f', 2], ['i', 1]]]], ['m', [[None, ['i', 1]], [['i', 2], ['s', 'x']]]],
     ['m', [[['f', 5], ['i', 1]], ['a', ['i', 1]]]], ['m', [[['b', True], ['i', 1]], [['d', D0], None]]], ['m', [[['i', 2], ['i', 1]]]], ['m', [[['nan', 0], ['i', 1]], [['i', 2], ['i', 2]]]],
+    ['npdu', D0 + 64 * DAYUS + 45015123456, 'Y'], ['npdu', D0 + 64 * DAYUS + 45015123456, 'M'], ['npdu', D0 + 64 * DAYUS + 45015123456, 'W'], ['npdu', D0 + 64 * DAYUS + 45015123456, 'D'],
+    ['npdu', D0 + 64 * DAYUS + 45015123456, 'h'], ['npdu', D0 + 64 * DAYUS + 45015123456, 'm'], ['npdu', D0 + 64 * DAYUS + 45015123456, 's'], ['npdu', D0 + 64 * DAYUS + 45015123456, 'ms'],
+    ['npdu', D0 + 64 * DAYUS + 45015123456, 'us'], ['npdu', D0 + 64 * DAYUS + 45015123456, 'ns'], ['npdu', D0, 'M'], ['npdu', D0, 'Y'], ['t', [['npdu', D0 + 1000000, 'M'], ['i', 1]]],
     ['npi32', 2], ['npf32', 3], ['l', [['i', 1]] * 150 + [['i', 2]]], ['l', [['i', 1]] * 150 + [['f', 4]]], ['l', [['f', 2]] * 150 + [['i', 3]]],
     ['t', []], ['l', []], ['m', []], ['m', []],
     ['t', [['i', 1]]], ['t', [['f', 2]]], ['t', [['i', 2]]], ['t', [['i', 1], ['i', 2]]], ['t', [['i', 1], ['s', 'a']]], ['t', [None]],
@@ -501,7 +516,8 @@ def canon_json(v):
     """canonical observation of a JSON value without building it (domain of sort / tables only)"""
     if v is None: return None
     if v[0] == 't': return ['t', [canon_json(x) for x in v[1]]]
-    if v[0] in ('pdt', 'npd', 'date'): return ['d', v[1]]
+    if v[0] == 'npdu': return ['d', npdu_us(v[1], v[2])]
+    if v[0] in ('pdt', 'npd', 'date', 'adt'): return ['d', v[1]]
     return list(v)
 
 def shape(case):
@@ -552,6 +568,10 @@ def rand_scalar(rng):
     if r < 0.97: return ['npd', D0 + rng.choice([0, 1000000, DAYUS])]
     return ['s', rng.choice(['é', 'a中', 'z', 'B'])]
 DKEYS = ['a', 'b', 'c', 'ab', 'B', ['i', 2], ['i', 7], ['f', 5], None, ['d', D0], ['b', True], ['nan', 0], ['pdt', D0 + 1]]
+T0 = D0 + 5 * 3600 * 10 ** 6
+# aware datetimes in three zones: equal instants with different wall clocks, equal wall clocks with different instants, wall-clock order != chronological order
+AWARE = [['adt', T0, 300], ['adt', T0, 0], ['adt', T0 + 12 * 3600 * 10 ** 6, -480], ['adt', T0 + 13 * 3600 * 10 ** 6, -480], ['adt', T0 + DAYUS, 300], ['adt', T0 - 3600 * 10 ** 6, 60],
+         ['adt', T0 + 1, 300], ['adt', T0 + 13 * 3600 * 10 ** 6, 300], ['adt', T0 + 5 * 3600 * 10 ** 6, -480]]
 def rand_val(rng, depth):
     r = rng.random()
     if depth <= 0 or r < 0.45:
@@ -599,17 +619,18 @@ def perturb(rng, v, depth=3):
 
 def rand_sort_list(rng, tier):
     n = rng.choice([0, 1, 2, 2, 3, 3, 4, 5, 6, 8] if tier == 'quick' else [0, 1, 2, 3, 4, 5, 6, 8, 10, 12])
-    mode = rng.choice(['nums', 'nums', 'numsnan', 'numsnan', 'strs', 'dates', 'mixed', 'mixed', 'tuples', 'tuples', 'tuplesmixed', 'huge'])
+    mode = rng.choice(['nums', 'nums', 'numsnan', 'numsnan', 'strs', 'dates', 'mixed', 'mixed', 'tuples', 'tuples', 'tuplesmixed', 'huge', 'aware'])
     def sc(m):
         if m == 'nums': return ['inf', rng.random() < 0.5] if rng.random() < 0.08 else rand_num(rng)
         if m == 'huge': return rng.choice(HUGE + [['i', 1], ['nan', 0]]) if rng.random() < 0.9 else rand_domain_scalar(rng)
         if m == 'numsnan': return ['nan', rng.randrange(2)] if rng.random() < 0.3 else ['inf', rng.random() < 0.5] if rng.random() < 0.2 else rand_num(rng)
         if m == 'strs': return ['s', rng.choice(STRS)]
         if m == 'dates': return rand_date(rng)
+        if m == 'aware': return rng.choice(AWARE) if rng.random() < 0.85 else rng.choice([None, ['i', 1], ['s', 'a']])
         return rand_domain_scalar(rng)
     if mode.startswith('tuples'):
         k = rng.choice([1, 2, 2, 3])
-        colmodes = [rng.choice(['nums', 'numsnan', 'strs', 'mixed', 'dates', 'huge']) if mode == 'tuplesmixed' or rng.random() < 0.3 else rng.choice(['nums', 'strs', 'huge'])
+        colmodes = [rng.choice(['nums', 'numsnan', 'strs', 'mixed', 'dates', 'huge', 'aware']) if mode == 'tuplesmixed' or rng.random() < 0.3 else rng.choice(['nums', 'strs', 'huge'])
                     for _ in range(k)]
         return [['t', [sc(m) for m in colmodes]] for _ in range(n)]
     return [sc(mode) for _ in range(n)]
@@ -618,10 +639,11 @@ COLS = ['a', 'b', 'c', 'd']
 KWNAMES = ['reverse', 'key', 'by', 'ascending', 'inplace', 'reverse', 'cmp', 'stable', 'na_position']
 NAMEPOOL = ['a', 'b', 'c', 'd', 'key', 'name', 'date', 'x y', 'A', 'len', 'keys', 'items', 'values', 'Key', 'col_1', 'z9', 'columns', 'data', 'function', 'other', 'value', 'reverse', 'by', 'ascending', 'inplace', '_columns', '_x']     # dict methods, builtins, a space, cases
 def rand_column(rng, n, mode=None):
-    mode = mode or rng.choice(['ints', 'ints', 'nums', 'numsnan', 'strs', 'mixed', 'mixed', 'dates', 'none', 'bin', 'bin', 'huge'])
+    mode = mode or rng.choice(['ints', 'ints', 'nums', 'numsnan', 'strs', 'mixed', 'mixed', 'dates', 'none', 'bin', 'bin', 'huge', 'aware'])
     out = []
     for _ in range(n):
         if mode == 'ints': out.append(['i', rng.randrange(0, 4)])
+        elif mode == 'aware': out.append(rng.choice(AWARE))
         elif mode == 'huge': out.append(rng.choice(HUGE + HUGE + [['i', 0], ['f', 1]]))
         elif mode == 'bin': out.append(rng.choice([['i', 0], ['i', 0], ['i', 0], ['i', 1], ['f', 0]]))      # few keys, big groups
         elif mode == 'nums': out.append(rng.choice([['i', rng.randrange(0, 3)], ['f', 2 * rng.randrange(0, 3)], ['f', rng.randrange(-2, 5)]]))
@@ -765,6 +787,9 @@ def gen_cases(rng, tier):
         z = perturb(rng, rng.choice([x, y])) if rng.random() < 0.8 else rand_val(rng, 2)
         vals = [x, y, z]; rng.shuffle(vals)
         cases.append({'kind': 'cmp3', 'vals': vals})
+    for _ in range(80 if q else 800):                     # all-aware comparisons (aware vs naive raises in python itself and is not generated)
+        def av(): return rng.choice(AWARE) if rng.random() < 0.7 else rng.choice([['t', [rng.choice(AWARE), ['i', 1]]], ['l', [rng.choice(AWARE)]], ['m', [['a', rng.choice(AWARE)]]], None, ['i', 2]])
+        cases.append({'kind': 'cmp3', 'vals': [av(), av(), av()]})
     for _ in range(1200 if q else 20000):
         c = {'kind': 'sort', 'xs': rand_sort_list(rng, tier)}
         f = rng.choice(['list', 'list', 'tuple', 'iter'])
